@@ -304,6 +304,7 @@ pub fn outs_loco(l: &Locomotive) -> Outs {
 pub fn err_code(e: &anyhow::Error) -> (i64, String) {
     let m = format!("{:#}", e);
     let table: &[(&str, i64)] = &[
+        ("exceeds current max power", 803),
         ("Cannot interpolate as all values are equal", 101),
         ("Unable to find where the query fits", 103),
         ("dt must always be greater than 0.0", 201),
